@@ -1658,7 +1658,13 @@ where
         if self.parser.remaining() == 0 {
             return None;
         }
-        Some(ASP::parse(&mut self.parser))
+        let res = ASP::parse(&mut self.parser);
+        if res.is_err() {
+            // What follows an NLRI that failed to parse can not be
+            // delimited: the error is the last item.
+            self.parser.advance_to_end();
+        }
+        Some(res)
     }
 }
 
@@ -1724,6 +1730,12 @@ where
             NlriType::L2VpnEvpnAddpath => L2VpnEvpnAddpathNlri::parse(&mut self.parser).map(Nlri::L2VpnEvpnAddpath),
             NlriType::Unsupported(..) => { return None; }
         };
+
+        if res.is_err() {
+            // What follows an NLRI that failed to parse can not be
+            // delimited: the error is the last item.
+            self.parser.advance_to_end();
+        }
 
         Some(res)
     }
